@@ -17,7 +17,7 @@ from common import LEAN, Driver, Report, check_proofs, proof_coverage, rng
 from gen import Cfg, G, required_version
 from pipeline import Case, exec_diff, load_corpus, replay_case
 
-PROOF_MODULES = ["PyTealV.Proofs.Sim", "PyTealV.Proofs.Shape", "PyTealV.Proofs.C01"]
+PROOF_MODULES = ["PyTealV.Proofs.Sim", "PyTealV.Proofs.ShapeMach", "PyTealV.Proofs.ShapeOps", "PyTealV.Proofs.ShapeSem", "PyTealV.Proofs.ShapeGen", "PyTealV.Proofs.Shape", "PyTealV.Proofs.C01"]
 TRUSTED = [
     "Lean 4 kernel; axioms propext, Classical.choice, Quot.sound only",
     "AVM spec lean/PyTealV/Avm (TEAL grammar, opcode semantics execPrim, machine step)",
